@@ -386,7 +386,7 @@ func handleCrashes(c *Check, tier string, seed int, pool *Pool, crashes []*Outco
 		// confirm in a fresh worker
 		re := pool.Do(Request{Prop: c.ID, Tier: tier, Seed: cr.Seed})
 		if re.Crashed == "" {
-			fmt.Fprintf(os.Stderr, "HARNESS: seed %d %s did not reproduce: %s\n", cr.Seed, kind, firstLine(cr.Crashed))
+			fmt.Fprintf(os.Stderr, "HARNESS: seed %d %s did not reproduce: %s\n%s\n", cr.Seed, kind, firstLine(cr.Crashed), tail(cr.Crashed, 3000))
 			res.harness = true
 			continue
 		}
